@@ -34,6 +34,7 @@ from vf.sym import SymRef, SymBool, SymDict, PyExc, EngineLimit, CTX, Opaque
 from vf.interp import Interp, Inst, IClass
 from vf.harness import VC, mk_sig
 from vf.objects import SymObj, Slot, SymCallable, MethodWrapper, may_raise, class_name
+from vf import sym as _sym
 from .common import clause
 
 UF = '_autoforwards.autoforwards_function'
@@ -63,6 +64,19 @@ US_ = 'sphinxext.process_signature'
 S_TOTAL = clause(US_, 'raises:nothing_for_documentable', ['C07'], 'P',
                  'whatever retrieval and annotation evaluation raise, the hook returns (given a name that can be imported)')
 S_STR = clause(US_, 'post:two_strings_or_inputs', ['C07'], 'P')
+UM_ = 'specifiers.forwards_to_method'
+M_BOUND = clause(UM_, 'post:bound_means_forwards', ['C04'], 'P',
+                 'unbound (no __self__, or None): no opinion (None); bound to ANY instance - whatever its truth value - the result is '
+                 'specifiers.forwards(obj, <attribute chain on the instance>, *args, **kwargs)')
+US2 = 'specifiers.forwards_to_super'
+S_BOUND = clause(US2, 'post:bound_means_forwards', ['C04'], 'P')
+UF2 = 'specifiers.forwards'
+F_COMP = clause(UF2, 'post:is_signatures_forwards_of_the_two_signatures', ['C04'], 'P',
+                '= signatures.forwards(signatures.signature(wrapper), specifiers.signature(wrapped), *args, **kwargs)')
+UPA = '_autoforwards.autoforwards_partial'
+PA_COMP = clause(UPA, 'post:looks_through_the_partial', ['C19'], 'P',
+                 '= _mask(autoforwards(par.func, par.args, {}), len(par.args), no hide flag, par.keywords or {}, par) for EVERY partial object, '
+                 'with or without bound positionals; positionals are handed to discovery, keywords are not')
 UT = '_specifiers.forged_signature (termination)'
 T_REC = clause(UT, 'rt:cyclic_forwarding_graph_terminates', ['C07'], 'R',
                'runtime contract on two concrete programs: a function forwarding to itself, and a two-function cycle')
@@ -111,7 +125,8 @@ def is_unknown_forwards(I, exc):
     return z3.BoolVal(False)
 
 
-def make_runner(mode, shape=DEF_SHAPES[0], node='FunctionDef', kind='function', want=None):
+def make_runner(mode, shape=DEF_SHAPES[0], node='FunctionDef', kind='function', want=None, variant=None):
+    variant = dict(variant or {})     # symbolic choices fixed by the task (splits one unit over several tasks)
     I = Interp()
     env = {'interp': I, 'mode': mode}
     ma = I.module('sigtools._autoforwards')
@@ -119,6 +134,10 @@ def make_runner(mode, shape=DEF_SHAPES[0], node='FunctionDef', kind='function', 
     msp = I.module('sigtools._specifiers')
 
     def run(ctx, r):
+        def choose(name):
+            if name in variant:
+                return bool(variant[name])
+            return ctx.decide(z3.Bool(name))
         env['r'] = r
         env.pop('forger_returned', None)
         env.pop('af_ast_returned', None)
@@ -243,6 +262,9 @@ def make_runner(mode, shape=DEF_SHAPES[0], node='FunctionDef', kind='function', 
                 if ctx.decide(ctx.fresh('merge_incompatible', z3.BoolSort())):
                     e = I.instantiate(IS, [args[0], ()], [])
                     raise I.make_exc(e)
+                if ctx.decide(ctx.fresh('merge_plain_ValueError', z3.BoolSort())):
+                    # inputs that are not role-consistent: the inspect.Signature constructor rejects the result
+                    raise PyExc(ValueError, ('duplicate parameter name',))
                 return args[0]
             I.call_hooks['_signatures:merge'] = merge_summary
             f = new_obj('func')
@@ -267,14 +289,26 @@ def make_runner(mode, shape=DEF_SHAPES[0], node='FunctionDef', kind='function', 
                 kw = SymDict()
                 if ctx.decide(z3.Bool('one_keyword_%d' % j)):
                     kw.items_ = [('kw%d' % j, I.instantiate(Arg, ['q%d' % j], []))]
-                calls.append(dict(flags=fl, marker=marker, nargs=nargs, kw=kw,
-                                  rec=Call(marker, fwdargs, kw, None, None, fl['use_varargs'], fl['use_varkwargs'], fl['hide_args'], fl['hide_kwargs'])))
-            same_callee = ctx.decide(z3.Bool('both_calls_same_callee'))
+                # the call may be written functools.partial(callee, ...): then the callee is the first explicit argument
+                via_partial = j == 0 and choose('written_as_functools_partial_%d' % j)
+                wrapped_marker = marker
+                if via_partial:
+                    wrapped_marker = I.instantiate(ma.ns['Name'], ['partial'], [])
+                    fwdargs = [marker] + fwdargs
+                # the wrapper's own *args may already hold values known to discovery (deep-argument paths)
+                star_marker = I.instantiate(Arg, ['args'], [])
+                nspill = 0
+                if j == 0:
+                    nspill = 2 if choose('two_values_already_in_star_args') else (1 if choose('one_value_already_in_star_args') else 0)
+                calls.append(dict(flags=fl, marker=marker, nargs=nargs, kw=kw, via_partial=via_partial, wrapped_marker=wrapped_marker, star_marker=star_marker,
+                                  spilled=tuple(Opaque('value %d in *args' % i) for i in range(nspill)),
+                                  rec=Call(wrapped_marker, fwdargs, kw, star_marker, None, fl['use_varargs'], fl['use_varkwargs'], fl['hide_args'], fl['hide_kwargs'])))
+            same_callee = choose('both_calls_same_callee')
             if same_callee:
                 # the two calls name the same callee with the same explicit arguments: only the star usage differs
                 calls[1]['marker'] = calls[0]['marker']
-                calls[1]['rec'] = calls[1]['rec']._replace(wrapped=calls[0]['marker'], args=calls[0]['rec'].args, kwargs=calls[0]['rec'].kwargs)
-                calls[1]['nargs'], calls[1]['kw'] = calls[0]['nargs'], calls[0]['kw']
+                calls[1]['rec'] = calls[1]['rec']._replace(wrapped=calls[0]['rec'].wrapped, args=calls[0]['rec'].args, kwargs=calls[0]['rec'].kwargs)
+                calls[1]['nargs'], calls[1]['kw'], calls[1]['via_partial'], calls[1]['wrapped_marker'] = calls[0]['nargs'], calls[0]['kw'], calls[0]['via_partial'], calls[0]['wrapped_marker']
             env['calls'] = calls
             env['fw_calls'] = []
             env['yielded'] = []
@@ -282,6 +316,11 @@ def make_runner(mode, shape=DEF_SHAPES[0], node='FunctionDef', kind='function', 
             def rn_summary(interp_, clo, args, kwpairs):
                 obj = args[0]
                 unknown = dict(kwpairs).get('unknown', args[3] if len(args) > 3 else False)
+                for j, c in enumerate(calls):
+                    if obj is c['star_marker']:
+                        return c['spilled']
+                    if c['via_partial'] and obj is c['wrapped_marker']:
+                        return I.getattr_(ma.ns['functools'], 'partial')
                 for j, c in enumerate(calls):
                     if obj is c['marker']:
                         if ctx.decide(ctx.fresh('unresolvable_callee', z3.BoolSort())):
@@ -346,6 +385,79 @@ def make_runner(mode, shape=DEF_SHAPES[0], node='FunctionDef', kind='function', 
         elif mode == 'recursion':
             env['rec_results'] = recursion_cases()
             r.outcome, r.value = 'return', None
+        elif mode in ('fwd_method', 'fwd_super'):
+            spm = I.module('sigtools.specifiers')
+            inst = new_obj('bound_instance', 'instance')
+            inst.truthy = z3.Bool('instance_is_truthy')
+            target = new_obj('target_attribute')
+            inst.slots['egg'] = Slot(True, False, target, None)
+            has_self = z3.Bool('method_is_bound')
+            obj = new_obj('decorated_method', 'method')
+            obj.slots['__self__'] = Slot(has_self, False, inst, None)
+            if ctx.decide(z3.Bool('self_attribute_is_None')):
+                obj.slots['__self__'].v_inst = None
+            obj.defaults['__name__'] = 'egg'
+            env.update(obj=obj, inst=inst, target=target)
+            rec = env['fwd_calls'] = []
+
+            def fwd(interp_, clo, a, kw):
+                rec.append((list(a), list(kw)))
+                return Opaque('forwards result')
+            I.call_hooks['specifiers:forwards'] = fwd
+            for o in objs:
+                o.snapshot()
+            if mode == 'fwd_method':
+                # (obj is keyword-only: the forger protocol calls forger(obj=...))
+                harness.run_unit(I, spm.ns['forwards_to_method'], ['egg', 1], [('obj', obj), ('use_varargs', False)], r)
+            else:
+                sup_target = new_obj('super_method')
+                env['target'] = sup_target
+
+                class SuperObj:
+                    def _vf_getattr(self, interp_, name):
+                        return sup_target
+                I.builtins['super'] = lambda *a: SuperObj()
+                harness.run_unit(I, spm.ns['forwards_to_super'], [1], [('obj', obj), ('cls', Opaque('cls')), ('use_varargs', False)], r)
+        elif mode == 'spec_forwards':
+            spm = I.module('sigtools.specifiers')
+            wrapper, wrapped = new_obj('wrapper'), new_obj('wrapped')
+            env.update(wrapper=wrapper, wrapped=wrapped)
+            s1, s2 = Opaque('signatures.signature(wrapper)'), Opaque('specifiers.signature(wrapped)')
+            env.update(s1=s1, s2=s2, log=[])
+            I.call_hooks['_signatures:signature'] = lambda i_, c, a, k: (env['log'].append(('plain', a[0])), s1)[1]
+            I.call_hooks['_specifiers:forged_signature'] = lambda i_, c, a, k: (env['log'].append(('forged', a[0])), s2)[1]
+            rec = env['fwd_calls'] = []
+
+            def sfwd(interp_, clo, a, kw):
+                rec.append((list(a), list(kw)))
+                return Opaque('result')
+            I.call_hooks['_signatures:forwards'] = sfwd
+            harness.run_unit(I, spm.ns['forwards'], [wrapper, wrapped, 1, 'name'], [('hide_args', True)], r)
+        elif mode == 'af_partial':
+            nbound = 1 if ctx.decide(z3.Bool('partial_binds_a_positional')) else 0
+            bound = tuple(Opaque('bound argument %d' % i) for i in range(nbound))
+            kws = SymDict()
+            if ctx.decide(z3.Bool('partial_binds_a_keyword')):
+                kws.items_ = [('z', Opaque('bound keyword value'))]
+            func = new_obj('partial_func')
+            par = world.SymPartial(z3.Const('partial_obj', sym.RefS), func, bound, kws if ctx.decide(z3.Bool('keywords_is_a_dict')) or kws.items_ else None)
+            env.update(par=par, func=func, bound=bound, kws=kws)
+            inner_sig = Opaque('autoforwards(par.func, par.args, {})')
+            env['inner_sig'] = inner_sig
+            log = env['log'] = []
+
+            def af(interp_, clo, a, kw):
+                log.append(('autoforwards', list(a), list(kw)))
+                if ctx.decide(ctx.fresh('inner_unknown', z3.BoolSort())):
+                    raise PyExc(UF_cls, ())
+                return inner_sig
+            I.call_hooks['_autoforwards:autoforwards'] = af
+
+            def mk(interp_, clo, a, kw):
+                log.append(('_mask', list(a), list(kw)))
+                return Opaque('masked')
+            I.call_hooks['_signatures:_mask'] = mk
+            harness.run_unit(I, ma.ns['autoforwards_partial'], [par, (Opaque('outer arg'),), SymDict()], [], r)
         elif mode == 'as_forged':
             spm = I.module('sigtools.specifiers')
             inst = new_obj('instance', 'instance')
@@ -468,10 +580,54 @@ def vcs(env, want):
                 a, kw = fw[k]
                 c = calls[j]
                 names = [x for x in a[3:]]
+                # the number of positionals WRITTEN in the call (the callee of functools.partial is not one of them; values
+                # already sitting in the wrapper's *args are not written either)
                 ok = (y is kw.get('__result__') and len(a) >= 3 and a[2] == c['nargs'] and names == [kk for kk, _ in c['kw'].items_] and
                       all(kw.get(fk) is c['flags'][fk] or kw.get(fk) == flagv[j][fk] for fk in ('use_varargs', 'use_varkwargs', 'hide_args', 'hide_kwargs')) and
-                      kw.get('partial') in (False, 0))
+                      bool(kw.get('partial')) == bool(c['via_partial']))
             out.append(VC(W_ELEM.full, [], z3.BoolVal(bool(ok)), W_ELEM.props))
+    elif mode in ('fwd_method', 'fwd_super'):
+        c = M_BOUND if mode == 'fwd_method' else S_BOUND
+        if on(c):
+            obj = env['obj']
+            s = obj.slots['__self__']
+            bound = z3.And(obj.entry['__self__'][0] if not isinstance(obj.entry['__self__'][0], bool) else z3.BoolVal(obj.entry['__self__'][0]),
+                           z3.BoolVal(s.v_inst is not None))
+            rec = env['fwd_calls']
+            if r.outcome == 'raise':
+                out.append(VC(c.full + ':no_exception:' + r.exc.typname, [], z3.BoolVal(False), c.props))
+            elif r.value is None:
+                out.append(VC(c.full + ':None_only_when_unbound', [], z3.Not(bound), c.props))
+            else:
+                ok = len(rec) == 1 and len(rec[0][0]) == 3 and rec[0][0][0] is obj and rec[0][0][1] is env['target'] and rec[0][0][2] == 1 and \
+                    [(k, v) for k, v in rec[0][1]] == [('use_varargs', False)]
+                out.append(VC(c.full + ':forwards_called_with_the_declaration', [], z3.And(bound, z3.BoolVal(bool(ok))), c.props))
+    elif mode == 'spec_forwards':
+        if on(F_COMP):
+            rec = env['fwd_calls']
+            ok = r.outcome == 'return' and len(rec) == 1 and env['log'] == [('plain', env['wrapper']), ('forged', env['wrapped'])]
+            if ok:
+                a, kw = rec[0]
+                ok = a[0] is env['s1'] and a[1] is env['s2'] and a[2:] == [1, 'name'] and [(k, v) for k, v in kw] == [('hide_args', True)]
+            out.append(VC(F_COMP.full, [], z3.BoolVal(bool(ok)), F_COMP.props))
+    elif mode == 'af_partial':
+        if on(PA_COMP):
+            log = env['log']
+            par = env['par']
+            afc = [e for e in log if e[0] == 'autoforwards']
+            mkc = [e for e in log if e[0] == '_mask']
+            ok = len(afc) == 1 and afc[0][1][0] is env['func'] and tuple(afc[0][1][1]) == tuple(env['bound']) and \
+                (len(afc[0][1]) < 3 or (isinstance(afc[0][1][2], SymDict) and not afc[0][1][2].items_))
+            if r.outcome == 'return':
+                ok = ok and len(mkc) == 1
+                if ok:
+                    a = mkc[0][1]
+                    kw_ok = (a[6] is par.keywords) if par.keywords is not None and par.keywords.items_ else (isinstance(a[6], SymDict) and not a[6].items_)
+                    ok = a[0] is env['inner_sig'] and a[1] == len(env['bound']) and a[2:6] == [False, False, False, False] and kw_ok and a[7] is par
+            else:
+                # only the inner discovery's UnknownForwards may surface, and only after it was consulted
+                ok = ok and not mkc and z3.is_true(z3.simplify(is_unknown_forwards(I, r.exc)))
+            out.append(VC(PA_COMP.full, [], z3.BoolVal(bool(ok)), PA_COMP.props))
     elif mode == 'as_forged':
         desc, inst = env['desc'], env['inst']
         now_in = inst in desc._d['currently_computing']
